@@ -14,6 +14,18 @@ def stepModel (m : Mutex) (line : String) : Mutex × String :=
     | some k => (Mutex.init k, "ok")
     | none => (m, "bad-op")
   | ["state"] => (m, s!"{m.state.toString} | {showGs m.gs}")
+  | [blk, i, rel, j] =>
+    if blk != "block-lock" && blk != "block-rlock" then (m, "bad-op") else
+    match i.toNat?, parseOp [rel, j] with
+    | some i, some relOp =>
+      if i ≥ m.gs.length || relOp.owner ≥ m.gs.length || i == relOp.owner then (m, "bad-op") else
+      let tryOp := if blk == "block-lock" then Op.tryLock i else Op.tryRLock i
+      -- the waiter must really be blocked before the release
+      if (step m tryOp).2 == .bool true then (m, "returned-before-release") else
+      let r := step m relOp
+      let t := step r.1 tryOp
+      (t.1, showRes r.2 ++ (if t.2 == .bool true then " acquired" else " ctx-ended"))
+    | _, _ => (m, "bad-op")
   | ws => match parseOp ws with
     | some op => let r := step m op; (r.1, showRes r.2)
     | none => (m, "bad-op")
